@@ -99,7 +99,8 @@ def check(case):
         Xtrain = (Xtrain.astype(Xin.dtype) if Xin.dtype.kind == "i" else Xtrain).copy()
     history = case.get("history") if case.get("n_train") != "same_buffer" else None
     with sut("MovingWindow.fit/transform_scores/predict"):
-        det = K.build(K.detector_spec("MovingWindow", params))
+        spec_ = K.detector_spec("MovingWindow", params)
+        det = K.reconfigured(spec_, Xtrain) if history == "reconfigured" else K.build(spec_)
         if history == "scorer_prefit_wide" and not K.prefit_scorer_wide(det, Xtrain):
             history = None
         det.fit(Xtrain)
